@@ -203,6 +203,22 @@ WantOK(o, q) ==
                       THEN DgOf(o.tschema, LAMBDA x : x.svc, a.name) ELSE "ERR")
          [] OTHER -> FALSE
 
+\* C18 on the read paths: the identifiers carried by the requests a listing returns are pairwise
+\* distinct, are identifiers of stored requests, and belong to the subject asked for
+NoDup(s) == \A i, j \in DOMAIN s : i # j => s[i] # s[j]
+IdsOfListingOK(q, s) ==
+    /\ NoDup(s)
+    /\ \A i \in DOMAIN s :
+          LET r == T4(s[i]) IN
+          /\ r \in DOMAIN req
+          /\ (q.q = "requests" => req[r].prov = q.arg.prov /\ r[1] \in DOMAIN ctx /\ ctx[r[1]].svc = q.arg.svc)
+          /\ (q.q = "requests_by_ctx" => r[1] = q.arg.id /\ r[2] = q.arg.batch)
+QueryIdsOK ==
+    (ev'.name = "Obs") =>
+        \A i \in DOMAIN ev'.obs.queries :
+            LET q == ev'.obs.queries[i] IN
+            q.q \in {"requests", "requests_by_ctx"} => (IdsOfListingOK(q, q.rids) /\ IdsOfListingOK(q, q.lrids))
+
 \* queries that list bindings (C15's listing clause)
 IsListing(q) == q.q = "bindings"
 
@@ -240,7 +256,10 @@ ImportedIndexesOK ==
         LET i == ev'.gen.imp
             b == S_bind(i)
             po == S_powner(i)
-        IN /\ \A k \in DOMAIN b : b[k].sp = b[k].pr /\ k[2] \in DOMAIN po /\ po[k[2]] = b[k].owner
+        IN \* a definition never changes, a binding keeps its service, provider and owner - also across an export
+           /\ S_defs(i) = defs
+           /\ DOMAIN b = DOMAIN bind /\ \A k \in DOMAIN b : b[k].owner = bind[k].owner
+           /\ \A k \in DOMAIN b : b[k].sp = b[k].pr /\ k[2] \in DOMAIN po /\ po[k[2]] = b[k].owner
            /\ S_obind(i) = {<<b[k].owner, k[1], k[2]>> : k \in DOMAIN b}
            /\ S_oprov(i) = {<<po[p], p>> : p \in DOMAIN po}
 
@@ -279,7 +298,7 @@ Holds(p) ==
       [] p = "C15" -> Inv_C15' /\ Step_C15 /\ NoAnomaly("C15") /\ QueriesOK(IsListing)
       [] p = "C16" -> Inv_C16' /\ Step_C16
       [] p = "C17" -> QueriesOK(LAMBDA q : TRUE)
-      [] p = "C18" -> NoAnomaly("C18") /\ Step_C18
+      [] p = "C18" -> NoAnomaly("C18") /\ Step_C18 /\ QueryIdsOK
       [] p = "C19" -> Step_C19 /\ GenesisOK
       [] p = "C20" -> Step_C20
       [] OTHER -> TRUE
